@@ -45,6 +45,9 @@ class FakeSocket:
     def recv(self, n):
         if self.closed:
             raise OSError(9, "Bad file descriptor")
+        if not self.inbox and not self.peer_closed:
+            # a non-blocking socket with nothing to read (the selector would not have reported it readable)
+            raise BlockingIOError(11, "Resource temporarily unavailable")
         data, self.inbox = self.inbox[:n], self.inbox[n:]
         return data
 
